@@ -13,6 +13,7 @@ use crate::scn::hashctx::{self, HashCtx, VARIANTS};
 use crate::scn::macs;
 use crate::scn::streams::Engine;
 use crate::trace::{Obs, Op, Scenario, Tier, Trace, Violation};
+#[cfg(feature = "hooks")]
 use cryptoxide::chacha::verif::{ActiveEngine, PortableEngine};
 
 // ------------------------------------------------------------------ hashbulk
@@ -187,12 +188,18 @@ impl Scenario for EngLock {
         }
         t
     }
+    #[cfg(feature = "hooks")]
     fn execute(&self, t: &Trace, obs: &mut Obs) -> Result<(), Violation> {
         match t.p("rounds") {
             8 => englock_run::<ActiveEngine<8>, PortableEngine<8>>(t, obs),
             12 => englock_run::<ActiveEngine<12>, PortableEngine<12>>(t, obs),
             _ => englock_run::<ActiveEngine<20>, PortableEngine<20>>(t, obs),
         }
+    }
+    #[cfg(not(feature = "hooks"))]
+    fn execute(&self, _t: &Trace, obs: &mut Obs) -> Result<(), Violation> {
+        obs.hit("skipped.hooks_unavailable");
+        Ok(())
     }
 }
 
